@@ -355,6 +355,18 @@ def check_equality(res):
         res.states += 1
         if bool(got) != want:
             problems.append(("equality", "Content(%r, %r) == Content(%r, %r) is %r" % (t1, p1, t2, p2, got)))
+    # things that are not contents at all (the value a details.get() gave, the bytes themselves):
+    # never equal, from either side
+    for t, p, c in items:
+        for other in (None, b"".join(p), t):
+            res.evaluations += 1
+            try:
+                got = (c == other, other == c, c != other)
+            except Exception as e:
+                problems.append(("equality", "comparing Content(%r, %r) with %r raised %s: %s" % (t, p, other, type(e).__name__, e)))
+                continue
+            if got != (False, False, True):
+                problems.append(("equality", "Content(%r, %r) ==/!= %r gave %r" % (t, p, other, got)))
     return problems
 
 
